@@ -162,6 +162,8 @@ func TestC19(t *testing.T) {
 	p.MinBlocks, p.MaxBlocks = 8, 26
 	p.MaxTxs = 5
 	p.Inject = true
+	p.InjectAfterOnly = true
+	p.W["propose"], p.W["vote"] = 10, 14
 	runCheck(t, "C19", p, func(src Source, st *Stats) *Outcome {
 		gs, generating := src.(*GenSource)
 		recorded := map[string]qAnswer{}
@@ -170,7 +172,7 @@ func TestC19(t *testing.T) {
 		var changedKeys []string          // those of recKeys whose answer changed at least once
 		seenKey := map[string]bool{}
 		var verr error
-		reasks, oldChanged, midBlockChanged := 0, 0, 0
+		reasks, oldChanged, midBlockChanged, checksOK := 0, 0, 0, 0
 		fail := func(f string, a ...interface{}) {
 			if verr == nil {
 				verr = violationf(f, a...)
@@ -277,8 +279,42 @@ func TestC19(t *testing.T) {
 					inj.whenNote = when
 					reask(c, inj, touched)
 				case "check":
-					if _, perr := c.Sim.CheckTx(inj.Tx); perr != nil {
+					r, perr := c.Sim.CheckTx(inj.Tx)
+					if perr != nil {
 						fail("CheckTx panicked: %v", perr)
+					}
+					// "unaffected by pending mempool checks": ask right away for what an accepted check touched
+					if perr == nil && r.Code == 0 && generating && pos != 99 {
+						tx := &ctypes.Trx{}
+						if tx.Decode(inj.Tx) == nil && len(tx.From) == 20 && len(tx.To) == 20 {
+							checksOK++
+							st.label("accepted_mempool_check:"+txTypeName(tx.Type), 1)
+							for i, n := 0, 1+unif(gs.t, 2, "nAfterCheck"); i < n; i++ {
+								key := tx.From
+								if pct(gs.t, 35, "afterCheckTo") {
+									key = tx.To
+								}
+								path := pick(gs.t, []string{"account", "reward", "stakes", "delegatee", "stakes/total_power"}, "afterCheckPath")
+								if pct(gs.t, 60, "afterCheckTargeted") {
+									switch tx.Type {
+									case ctypes.TRX_WITHDRAW:
+										path, key = "reward", tx.From
+									case ctypes.TRX_STAKING, ctypes.TRX_UNSTAKING:
+										path = pick(gs.t, []string{"stakes", "delegatee"}, "afterCheckStakePath")
+										if path == "delegatee" {
+											key = tx.To
+										}
+									default:
+										path = "account"
+									}
+								}
+								b.Inject = append(b.Inject, Injected{Pos: 99, Kind: "query", Path: path,
+									Data: append([]byte(nil), key...), Height: pick(gs.t, []int64{0, 0, c.Sim.H}, "afterCheckHeight")})
+								if b.Inject[len(b.Inject)-1].Path == "stakes/total_power" {
+									b.Inject[len(b.Inject)-1].Data = nil
+								}
+							}
+						}
 					}
 				}
 			}
@@ -384,6 +420,7 @@ func TestC19(t *testing.T) {
 			}
 		}
 		st.label("reasks", reasks)
+		st.label("accepted_mempool_checks_followed_by_queries", checksOK)
 		st.label("reask_old_height_of_changed_key", oldChanged)
 		st.label("midblock_ask_of_key_changed_in_block", midBlockChanged)
 		st.label("recorded_answers", len(recorded))
